@@ -57,6 +57,36 @@ CLAIMED = {
          'the relative slot of edge weights and undriven inputs is not constrained (the property does not say).',
     technique='TLA+ slot-loop spec (TLC exhaustive) + TLC trace validation of artefacts parsed from generated files and f2py calls',
     ref='6/C18'),
+
+ 'C13': dict(
+    text='spec/Api.tla: PyRates as a state machine over public API calls with the template heap (shared, mutable variation '
+         'dictionaries), OperatorTemplate.cache (keyed by name), node_cache (keyed by structure hash) and the state a template '
+         'remembers from its first compile. TLC checks HistoryIndependent for every history within the bound over a universe '
+         'containing every collision C13 names (Dev={}), and each named deviation is shown to violate it. One behaviour per '
+         'distinct abstract state is replayed in a single fresh process; the linear field and initial state of the returned '
+         'function are compared exactly with the meaning of the template (layer M), then with the deviating model (known findings).',
+    note='Known findings D08, D40 matched against exact predictions; D09 class excluded by constraint with pinned reproducers; '
+         'default backend; universe of 3 operators / 4 node templates / 3 circuits; histories <= 2 exhaustive + sampled to depth 4 '
+         '(quick), <= 3 exhaustive + depth 6 (thorough).',
+    technique='TLA+ API-level state machine with caches, TLC exhaustive over call histories, replay into one process per history',
+    ref='6/C13'),
+ 'C14': dict(
+    text='spec/Api.tla action property ReadOnlyPreservesMeaning over every step of every history of read-only / copy-making '
+         'calls (get_nodes, get_edges/collect_edges, __getitem__/get_node_template, to_yaml, deepcopy, update_template copy, '
+         'get_run_func(in_place=False) with and without node_values); deviations (aliasing writes) are shown to violate it. '
+         'Behaviours replayed on real templates sharing operator and node objects; plus nested-circuit scenarios (collect_edges, '
+         'to_yaml, repeated run(in_place=False)).',
+    note='Known findings D08 / D40 (remembered state) matched against the deviating model; operator-level derivation is covered in C15.',
+    technique='TLA+ action property over API histories (TLC), replay into real template objects',
+    ref='6/C14'),
+ 'C07': dict(
+    text='spec/Api.tla action properties OnlyAddressedChange / EdgeOverrideOnlyItsEdge on every step: update_var (single node, '
+         'all, scalar, per-node array; constants and initial values), update_var(edge_vars), node_values, over templates in '
+         'which NodeTemplate/OperatorTemplate objects are shared between nodes and circuits; every distinct abstract state '
+         'reached by a compile is replayed and the compiled arguments/initial state compared exactly with Meaning.',
+    note='Known findings D08 / D40; constructor overrides are part of the fixed universe; add_edges_from_matrix covered in C16.',
+    technique='TLA+ action property over override histories (TLC), replay into real template objects',
+    ref='6/C07'),
 }
 
 NOT_YET = 'check not built yet in this round (planned in DESIGN.md section 6); not claimed'
